@@ -26,9 +26,14 @@ type Endpoint struct {
 	Code      int
 	Certs     []int    // indexes into the certificate pool
 	Comments  []string // one per certificate ("" = none)
+	// Later: behaviour in the later calls on the same Signer ("" = unchanged); only sign / rpcerr
+	Later     string
+	LaterCode int
 }
 
 type Case struct {
+	// Rounds is the number of Sign calls made on the one Signer (behaviours may change after the first).
+	Rounds     int
 	Endpoints  []Endpoint
 	Principals []string
 	KeyID      string
@@ -91,11 +96,29 @@ func gen(t *rapid.T) Case {
 	for i := 0; i < n; i++ {
 		c.Endpoints = append(c.Endpoints, genEndpoint(t, fmt.Sprintf("e%d", i)))
 	}
+	c.Rounds = rapid.SampledFrom([]int{1, 2, 2, 3}).Draw(t, "rounds")
+	if c.Rounds > 1 {
+		for i := range c.Endpoints {
+			e := &c.Endpoints[i]
+			if e.Behaviour == "nolistener" || e.Behaviour == "hang" {
+				continue
+			}
+			switch rapid.IntRange(0, 2).Draw(t, fmt.Sprintf("later%d", i)) {
+			case 0: // recovers / keeps signing
+				e.Later = "sign"
+				if len(e.Certs) == 0 {
+					e.Certs, e.Comments = []int{i % 6}, []string{"recovered"}
+				}
+			case 1:
+				e.Later, e.LaterCode = "rpcerr", 14
+			}
+		}
+	}
 	return c
 }
 
 func exec(c Case) (vh.Outcome, error) {
-	out := vh.Outcome{Classes: []string{fmt.Sprintf("n=%d", len(c.Endpoints))}}
+	out := vh.Outcome{Classes: []string{fmt.Sprintf("n=%d", len(c.Endpoints)), fmt.Sprintf("rounds=%d", max(c.Rounds, 1))}}
 	firstOK := -1
 	for i, e := range c.Endpoints {
 		out.Classes = append(out.Classes, "ep="+e.Behaviour)
@@ -109,7 +132,7 @@ func exec(c Case) (vh.Outcome, error) {
 	for i, e := range c.Endpoints {
 		ip := fmt.Sprintf("127.0.0.%d", i+2)
 		ips = append(ips, ip)
-		specs = append(specs, vh.CAServerSpec{IP: ip, Behaviour: e.Behaviour, Code: e.Code, KeyText: keyText(e), ClientAuth: "request", HangFor: 2 * time.Second})
+		specs = append(specs, vh.CAServerSpec{IP: ip, Behaviour: e.Behaviour, Code: e.Code, Later: e.Later, LaterCode: e.LaterCode, KeyText: keyText(e), ClientAuth: "request", HangFor: 2 * time.Second})
 	}
 	g, err := vh.StartCAGroup(specs)
 	if err != nil {
@@ -127,6 +150,48 @@ func exec(c Case) (vh.Outcome, error) {
 	if err != nil {
 		return out, vh.Errf("NewSigner failed for %d endpoints: %v", len(ips), err)
 	}
+	rounds := c.Rounds
+	if rounds < 1 {
+		rounds = 1
+	}
+	seen := make([]int, len(c.Endpoints)) // calls already attributed per endpoint
+	for round := 0; round < rounds; round++ {
+		g.SetRound(round)
+		// behaviours of this round
+		cur := make([]Endpoint, len(c.Endpoints))
+		copy(cur, c.Endpoints)
+		if round > 0 {
+			for i := range cur {
+				if cur[i].Later != "" {
+					cur[i].Behaviour, cur[i].Code = cur[i].Later, cur[i].LaterCode
+				}
+			}
+		}
+		if err := oneRound(c, cur, round, g, signer, seen, &out); err != nil {
+			return out, err
+		}
+	}
+	return out, nil
+}
+
+func behavioursOf(es []Endpoint) []string {
+	var b []string
+	for _, e := range es {
+		b = append(b, e.Behaviour)
+	}
+	return b
+}
+
+func oneRound(c Case, cur []Endpoint, round int, g *vh.CAGroup, signer *crypki.Signer, seenBefore []int, outp *vh.Outcome) error {
+	firstOK := -1
+	for i, e := range cur {
+		if e.Behaviour == "sign" && firstOK < 0 {
+			firstOK = i
+		}
+	}
+	if round > 0 && firstOK >= 0 {
+		outp.NonTrivial = true
+	}
 	req := &pb.SSHCertificateSigningRequest{KeyMeta: &pb.KeyMeta{Identifier: c.Identifier}, Principals: c.Principals, PublicKey: string(ssh.MarshalAuthorizedKey(vh.SSHPub("p256b"))),
 		Validity: c.Validity, KeyId: c.KeyID, Extensions: map[string]string{"permit-pty": "", "x": "y"}, CriticalOptions: map[string]string{"force-command": "true"}}
 	sent := proto.Clone(req).(*pb.SSHCertificateSigningRequest)
@@ -136,31 +201,32 @@ func exec(c Case) (vh.Outcome, error) {
 	ctx, cancel := context.WithTimeout(context.Background(), 30*time.Second)
 	defer cancel()
 	if perr := vh.Catch(func() { certs, comments, serr = signer.Sign(ctx, req) }); perr != nil {
-		return out, vh.Errf("Sign crashed: %v", perr)
+		return vh.Errf("Sign crashed: %v", perr)
 	}
 	if !proto.Equal(req, sent) {
-		return out, vh.Errf("Sign modified the caller's request")
+		return vh.Errf("Sign modified the caller's request")
 	}
 	// who was contacted, in which order
 	type contact struct{ idx, seq int }
 	var contacts []contact
 	for i, s := range g.Servers {
-		calls := s.Calls()
+		calls := s.Calls()[seenBefore[i]:]
+		seenBefore[i] += len(calls)
 		if len(calls) > 1 {
-			return out, vh.Errf("endpoint %d (%s) was contacted %d times with retries = 1", i, c.Endpoints[i].Behaviour, len(calls))
+			return vh.Errf("round %d: endpoint %d (%s) was contacted %d times with retries = 1", round, i, cur[i].Behaviour, len(calls))
 		}
 		for _, call := range calls {
 			contacts = append(contacts, contact{i, call.Seq})
 			if !proto.Equal(call.Req, sent) {
-				return out, vh.Errf("endpoint %d received a request that differs from the input:\n got  %v\n want %v", i, call.Req, sent)
+				return vh.Errf("endpoint %d received a request that differs from the input:\n got  %v\n want %v", i, call.Req, sent)
 			}
 		}
 	}
-	last := len(c.Endpoints) - 1
+	last := len(cur) - 1
 	if firstOK >= 0 {
 		last = firstOK
 	}
-	for i, e := range c.Endpoints {
+	for i, e := range cur {
 		reachable := e.Behaviour != "nolistener"
 		var seq = -1
 		for _, ct := range contacts {
@@ -169,41 +235,41 @@ func exec(c Case) (vh.Outcome, error) {
 			}
 		}
 		if i <= last && reachable && seq < 0 {
-			return out, vh.Errf("endpoint %d (%s) was not contacted although no earlier endpoint had signed (behaviours %v)", i, e.Behaviour, behaviours(c))
+			return vh.Errf("endpoint %d (%s) was not contacted although no earlier endpoint had signed (behaviours %v)", i, e.Behaviour, behavioursOf(cur))
 		}
 		if i > last && seq >= 0 {
-			return out, vh.Errf("endpoint %d was contacted after endpoint %d had signed (behaviours %v)", i, last, behaviours(c))
+			return vh.Errf("endpoint %d was contacted after endpoint %d had signed (behaviours %v)", i, last, behavioursOf(cur))
 		}
 	}
 	for a := 0; a < len(contacts); a++ {
 		for b := a + 1; b < len(contacts); b++ {
 			if (contacts[a].idx < contacts[b].idx) != (contacts[a].seq < contacts[b].seq) {
-				return out, vh.Errf("endpoints were contacted out of order: endpoint %d as #%d, endpoint %d as #%d", contacts[a].idx, contacts[a].seq, contacts[b].idx, contacts[b].seq)
+				return vh.Errf("endpoints were contacted out of order: endpoint %d as #%d, endpoint %d as #%d", contacts[a].idx, contacts[a].seq, contacts[b].idx, contacts[b].seq)
 			}
 		}
 	}
 	if firstOK < 0 {
 		if serr == nil {
-			return out, vh.Errf("no endpoint signed (behaviours %v) but Sign returned no error (%d certificates)", behaviours(c), len(certs))
+			return vh.Errf("no endpoint signed (behaviours %v) but Sign returned no error (%d certificates)", behavioursOf(cur), len(certs))
 		}
-		return out, nil
+		return nil
 	}
 	if serr != nil {
-		return out, vh.Errf("endpoint %d signs but Sign failed (behaviours %v): %v", firstOK, behaviours(c), serr)
+		return vh.Errf("endpoint %d signs but Sign failed (behaviours %v): %v", firstOK, behavioursOf(cur), serr)
 	}
-	want := c.Endpoints[firstOK]
+	want := cur[firstOK]
 	if len(certs) != len(want.Certs) || len(comments) != len(certs) {
-		return out, vh.Errf("%d certificates and %d comments returned, endpoint %d sent %d certificates", len(certs), len(comments), firstOK, len(want.Certs))
+		return vh.Errf("%d certificates and %d comments returned, endpoint %d sent %d certificates", len(certs), len(comments), firstOK, len(want.Certs))
 	}
 	for i, ci := range want.Certs {
 		if !bytes.Equal(certs[i].Marshal(), pool()[ci%len(pool())].Marshal()) {
-			return out, vh.Errf("certificate %d is not the one endpoint %d sent at that position", i, firstOK)
+			return vh.Errf("certificate %d is not the one endpoint %d sent at that position", i, firstOK)
 		}
 		if comments[i] != want.Comments[i] {
-			return out, vh.Errf("comment %d is %q, endpoint %d sent %q", i, comments[i], firstOK, want.Comments[i])
+			return vh.Errf("comment %d is %q, endpoint %d sent %q", i, comments[i], firstOK, want.Comments[i])
 		}
 	}
-	return out, nil
+	return nil
 }
 
 func behaviours(c Case) []string {
@@ -214,7 +280,7 @@ func behaviours(c Case) []string {
 	return b
 }
 
-const rule = "endpoint lists of length 0..4 over 127.0.0.2..5 sharing one port, served by real gRPC-over-TLS Signing servers; per endpoint: signs 1..3 certificates with comment shapes (none, one word, several words, non-ASCII, a key-type look-alike), RPC error with any status code 1..16, empty key text, unparsable key text, no listener, hangs past the per-try deadline (rare); real crypki.NewSigner with real TLS material, retries = 1; request fields generated (principals, KeyID, validity, identifier, extensions, critical options). Oracle: contacted = the prefix up to and including the first signing endpoint, in order, each once, each receiving a request proto.Equal to the input; result = that endpoint's certificates and comments, same length, CA order; no signing endpoint or an empty list => non-nil error, never (nil, nil, nil). Non-trivial: a failing endpoint before a signing one, or all failing."
+const rule = "endpoint lists of length 0..4 over 127.0.0.2..5 sharing one port, served by real gRPC-over-TLS Signing servers; per endpoint: signs 1..3 certificates with comment shapes (none, one word, several words, non-ASCII, a key-type look-alike), RPC error with any status code 1..16, empty key text, unparsable key text, no listener, hangs past the per-try deadline (rare); real crypki.NewSigner with real TLS material, retries = 1; 1..3 Sign calls on the same Signer, with endpoints recovering or starting to fail after the first call; request fields generated (principals, KeyID, validity, identifier, extensions, critical options). Oracle: contacted = the prefix up to and including the first signing endpoint, in order, each once, each receiving a request proto.Equal to the input; result = that endpoint's certificates and comments, same length, CA order; no signing endpoint or an empty list => non-nil error, never (nil, nil, nil). Non-trivial: a failing endpoint before a signing one, or all failing."
 
 func TestC17Failover(t *testing.T) {
 	vh.Run(t, vh.Spec[Case]{Property: "C17", Name: "TestC17Failover", Rule: rule, Gen: gen, Exec: exec})
